@@ -6,6 +6,7 @@ import GoCrypt.Model.Scheme
 import GoCrypt.Props.EndToEnd
 import GoCrypt.Props.FlowModel
 import GoCrypt.Props.EndToEndBcrypt
+import GoCrypt.Props.KdfIR2
 
 /-!
 # C01 — a freshly generated hash verifies with the password it was made from
@@ -119,4 +120,14 @@ theorem default_salt_lengths_ok :
 #print axioms GoCrypt.EndToEnd.newHash_total_bcrypt
 #print axioms GoCrypt.EndToEnd.newHash_ok_iff_bcrypt
 #print axioms GoCrypt.EndToEnd.bcryptDerive_length
+-- every scheme's Key, after its guard clauses, as regenerated from the source (Props/KdfIR2.lean) computes Scheme.<s>.derive — the derive of the pipeline model the theorems above are about
+#print axioms GoCrypt.KdfIR2.desext_key_tail_ir_eq_derive
+#print axioms GoCrypt.KdfIR2.des_key_tail_ir_eq_derive
+#print axioms GoCrypt.KdfIR2.nthash_key_tail_ir_eq_derive
+#print axioms GoCrypt.KdfIR2.md5_key_tail_ir_eq_derive
+#print axioms GoCrypt.KdfIR2.sha256_key_tail_ir_eq_derive
+#print axioms GoCrypt.KdfIR2.sha512_key_tail_ir_eq_derive
+#print axioms GoCrypt.KdfIR2.sha1_key_tail_ir_eq_derive
+#print axioms GoCrypt.KdfIR2.sunmd5_key_tail_ir_eq_derive
+#print axioms GoCrypt.KdfIR2.bcrypt_key_tail_ir_eq_derive
 end GoCrypt.C01
